@@ -491,6 +491,9 @@ func (r *run) call(fr *frame, cur *node, x *ssa.Call) *node {
 	if r.assumedContracts != nil {
 		r.assumedContracts["calls through function values are pure (results are a function of the scalar arguments)"] = true
 	}
+	if sc, isScalar := cur.val(common.Value).(Scalar); isScalar {
+		fv = FuncV{Opaque: sc.T} // a function received as a value: identified by its (opaque) id
+	}
 	res := r.pureApp(fmt.Sprintf("dyn$%s", typeKey(common.Value.Type())), fv, args, common.Signature().Results())
 	cur.vals[x] = res
 	return cur
@@ -974,17 +977,27 @@ func (r *run) applyContractSig(fr *frame, cur *node, callee string, fc *contract
 	for _, m := range fc.Modifies {
 		en2.havoc(m, after)
 	}
-	// ghost updates (evaluated in the pre-state; they override the havoc of a ghost named in modifies)
-	for _, s := range fc.Sets {
-		gv := r.E.Ghosts[s.LetNames[0]]
-		if gv == nil {
-			r.fail("sets: unknown ghost %s", s.LetNames[0])
-			continue
-		}
-		tv := en.eval(s.Expr, gv.T)
-		after.setPV("G$"+gv.Name, r.scalarOf(en.coerceTo(tv, gv.T).V, gv.T))
-	}
 	var res Value
+	// ghost updates: evaluated with parameters and results bound; ghosts and heaps inside old(...) are
+	// the pre-state; an update overrides the havoc of a ghost named in modifies
+	applySets := func() {
+		var vals []*smt.Term
+		for _, s := range fc.Sets {
+			gv := r.E.Ghosts[s.LetNames[0]]
+			if gv == nil {
+				r.fail("sets: unknown ghost %s", s.LetNames[0])
+				vals = append(vals, nil)
+				continue
+			}
+			tv := en2.eval(s.Expr, gv.T)
+			vals = append(vals, r.scalarOf(en2.coerceTo(tv, gv.T).V, gv.T))
+		}
+		for i, s := range fc.Sets {
+			if vals[i] != nil {
+				after.setPV("G$"+s.LetNames[0], vals[i])
+			}
+		}
+	}
 	if results != nil && results.Len() > 0 {
 		if fc.Pure && len(fc.Ensures) == 0 {
 			res = r.pureApp("pure$"+callee, FuncV{}, args, results)
@@ -993,6 +1006,7 @@ func (r *run) applyContractSig(fr *frame, cur *node, callee string, fc *contract
 		}
 		bindResults(en2, fc, results, res)
 	}
+	applySets()
 	if fc.NoReturn {
 		after.alive = c.False()
 		return res, after
